@@ -742,6 +742,16 @@ def parse_vc(path):
                     if not m2:
                         raise ExtractError(f'{path}: bad #abstract-expr (need `sha=<hash> /regex/ = expr`): {s2}')
                     fn.setdefault('abstract_exprs', []).append((m2.group(2), m2.group(3).strip(), m2.group(1)))
+                elif s2.startswith('#lift-closure '):
+                    # R13: `#lift-closure /regex/ = fn NAME(PARAMS) -> (r: T)`: the unit of extraction is not the named fn
+                    # but the (unique) closure inside it whose text matches the regex: its block body becomes the body of a
+                    # fn with the given header (captured variables become parameters; a last parameter called `verif_arg`
+                    # is destructured with the closure's own parameter pattern).  Everything around the closure (the iterator
+                    # chain that calls it) is dropped and stated as such.
+                    m2 = re.match(r'#lift-closure\s+/(.+)/\s*=\s*(fn\s.+)$', s2)
+                    if not m2:
+                        raise ExtractError(f'{path}: bad #lift-closure (need `/regex/ = fn name(params) -> ret`): {s2}')
+                    fn['lift'] = (m2.group(1), m2.group(2).strip())
                 elif s2 == '#name-bytes':
                     # R8: byte-string literals of the body get a name (generated accessor with their content
                     # as postcondition), because the verifier knows nothing about a literal's bytes
@@ -754,10 +764,11 @@ def parse_vc(path):
                         # Copy element type, where it is what `into_iter()` yields
                         fn.setdefault('enum_loops_copy', []).append(int(s2.split()[1]))
                 elif s2.startswith('#ascribe '):
-                    m2 = re.match(r'#ascribe\s+(\w+)\s*:\s*(.+)$', s2)
+                    # `#ascribe x: T` (the only `let x`) or `#ascribe x@2: T` (the second `let x` of the body: shadowing)
+                    m2 = re.match(r'#ascribe\s+(\w+)(?:@(\d+))?\s*:\s*(.+)$', s2)
                     if not m2:
                         raise ExtractError(f'{path}: bad #ascribe: {s2}')
-                    fn.setdefault('ascribe', []).append((m2.group(1), m2.group(2).strip()))
+                    fn.setdefault('ascribe', []).append((m2.group(1), (m2.group(3).strip(), int(m2.group(2))) if m2.group(2) else m2.group(3).strip()))
                 elif s2.startswith('#proof-before '):
                     pat = s2[len('#proof-before '):].strip()
                     fn['proofs'].append(('before', pat, block('#end')))
@@ -791,6 +802,48 @@ def extract_fn(repo, spec, features):
     first, fn_kw, bo, bc = loc['first'], loc['fn_kw'], loc['body_open'], loc['body_close']
     log = []
     edits = Edits()
+    lift = spec.get('lift')
+    if lift:
+        # ---- R13: closure lifting (see the directive).  From here on the "function" is the closure: `first` is its
+        # opening bar, the body block is the closure's block; the header is the declared one.
+        rx, header = lift
+        hits = []
+        for ci in closures_in(sf, bo + 1, bc):
+            plo, phi, blo, bhi = closure_parts(sf, ci)
+            ctext = ' '.join(sf.text[T[ci].start:T[bhi - 1].end].split())
+            if re.search(rx, ctext):
+                hits.append((ci, plo, phi, blo))
+        if len(hits) != 1:
+            raise ExtractError(f'lost anchor: closure /{rx}/ in {spec["name"]} ({len(hits)} matches)')
+        ci, plo, phi, blo = hits[0]
+        while is_id(T[blo], 'async') or is_id(T[blo], 'move'):
+            blo += 1
+        if not is_p(T[blo], '{'):
+            raise ExtractError(f'R13 refused: the closure /{rx}/ of {spec["name"]} has no block body')
+        if spec['ret']:
+            raise ExtractError('R13: the return name goes into the declared header, not #ret')
+        ptext = ' '.join(sf.text[T[plo].start:T[phi].start].split()) if plo < phi else ''
+        pre = ''
+        if re.search(r'\bverif_arg\b', header):
+            # a reference pattern `&x` (binds x to a copy of the referent) is written as a binding plus a deref,
+            # which is what it means: `(.., &x) = a`  ==  `(.., verif_ref_x) = a; let x = *verif_ref_x;`
+            refs = re.findall(r'&\s*(\w+)', ptext)
+            ptext2 = re.sub(r'&\s*(\w+)', r'verif_ref_\1', ptext)
+            pre = f' let {ptext2} = verif_arg; ' + ''.join(f'let {x} = *verif_ref_{x}; ' for x in refs)
+        n_outer = (bc - bo) - (sf.pairs[blo] - blo)
+        first = ci
+        loc = dict(loc, quals=ci)
+        fn_kw = bo = blo
+        bc = sf.pairs[blo]
+        edits.add(T[ci].start, T[bo].start, header + ' ', 'rewrite', 'R13 lift')
+        if pre:
+            edits.add(T[bo].end, T[bo].end, pre, 'rewrite', 'R13 param pattern')
+        log.append({'step': 'R13', 'line': sf.line_of(T[ci].start),
+                    'before': f'closure |{ptext}| {{ B }} inside {spec["name"]}',
+                    'after': f'{header} {{{pre}B }}',
+                    'dropped_tokens': n_outer,
+                    'note': 'only the closure body is verified; the code of the enclosing fn around it (what the closure is '
+                            'applied to and what is done with its results) is dropped'})
     # E4: attributes + visibility/qualifiers (keep `const`/`unsafe` out of the subset)
     for k in range(loc['quals'], fn_kw):
         if is_id(T[k], 'unsafe'):
@@ -798,7 +851,7 @@ def extract_fn(repo, spec, features):
     if first < loc['quals']:
         edits.add(T[first].start, T[loc['quals']].start, '', 'drop', 'outer attrs')
     vis_end = fn_kw
-    if loc['quals'] < fn_kw:
+    if loc['quals'] < fn_kw and not lift:
         # drop pub / pub(crate) / async, keep nothing else
         quals = ' '.join(t.text for t in T[loc['quals']:fn_kw])
         if re.sub(r'pub|\(|\)|crate|super|async|in|self|\s', '', quals):
@@ -1072,7 +1125,8 @@ def extract_fn(repo, spec, features):
         have_sha = hashlib.sha256(mp[0].group(0).encode()).hexdigest()[:16]
         if have_sha != want_sha:
             raise ExtractError(f'abstracted expression /{rx_post}/ in {spec["name"]} changed (sha {have_sha}, reviewed {want_sha})')
-        edits.add(T[a].start, T[a].start, func + '(', 'rewrite', 'R7w open')
+        # (`FUNC` may carry leading arguments: `= f(i,` gives `f(i, <receiver>)`)
+        edits.add(T[a].start, T[a].start, func + ('(' if '(' not in func else ' '), 'rewrite', 'R7w open')
         edits.add(T[pa].start, T[pe].end, ')', 'rewrite', 'R7e abstract expr')
         dropped.append((T[pa].start, T[pe].end))
         log.append({'step': 'R7w', 'line': sf.line_of(T[pa].start), 'abstracted_unverified': mp[0].group(0)[:200],
@@ -1104,9 +1158,14 @@ def extract_fn(repo, spec, features):
                     k += 1
                 if is_id(T[k], var) and is_p(T[k + 1], '='):
                     hits.append(k)
-        if len(hits) != 1:
+        nth_ = 1
+        if isinstance(ty, tuple):
+            ty, nth_ = ty
+        elif len(hits) != 1:
             raise ExtractError(f'lost anchor: let {var} (ascribe) in {spec["name"]} ({len(hits)} matches)')
-        k = hits[0]
+        if nth_ > len(hits):
+            raise ExtractError(f'lost anchor: let {var} #{nth_} (ascribe) in {spec["name"]} ({len(hits)} matches)')
+        k = hits[nth_ - 1]
         edits.add(T[k].end, T[k].end, f': {ty}', 'rewrite', 'R5 ascribe')
         log.append({'step': 'R5', 'line': sf.line_of(T[k].start), 'ascribed': f'{var}: {ty}'})
 
